@@ -275,9 +275,19 @@ func (spt *Tracker) StatusAll(ctx context.Context, filter api.TrackerStatus) []*
 	ctx, span := trace.StartSpan(ctx, "tracker/stateless/StatusAll")
 	defer span.End()
 
-	pininfos, err := spt.localStatus(ctx, true, filter)
+	pis, err := spt.statusAll(ctx, filter)
 	if err != nil {
 		return nil
+	}
+	return pis
+}
+
+// statusAll is StatusAll which additionally reports why the status could
+// not be obtained (shared state or IPFS pin listing not available).
+func (spt *Tracker) statusAll(ctx context.Context, filter api.TrackerStatus) ([]*api.PinInfo, error) {
+	pininfos, err := spt.localStatus(ctx, true, filter)
+	if err != nil {
+		return nil, err
 	}
 
 	// get all inflight operations from optracker and put them into the
@@ -297,7 +307,7 @@ func (spt *Tracker) StatusAll(ctx context.Context, filter api.TrackerStatus) []*
 			pis = append(pis, pi)
 		}
 	}
-	return pis
+	return pis, nil
 }
 
 // Status returns information for a Cid pinned to the local IPFS node.
@@ -389,7 +399,12 @@ func (spt *Tracker) RecoverAll(ctx context.Context) ([]*api.PinInfo, error) {
 	ctx, span := trace.StartSpan(ctx, "tracker/stateless/RecoverAll")
 	defer span.End()
 
-	statuses := spt.StatusAll(ctx, api.TrackerStatusUndefined)
+	// When the statuses cannot be listed nothing can be recovered: say
+	// so, rather than returning an empty result without error.
+	statuses, err := spt.statusAll(ctx, api.TrackerStatusUndefined)
+	if err != nil {
+		return nil, err
+	}
 	resp := make([]*api.PinInfo, 0)
 	for _, st := range statuses {
 		r, err := spt.recoverWithPinInfo(ctx, st)
